@@ -5,6 +5,8 @@ A case is a whole history:
   {"base": ticks, "scripts": [[op, ...], ...], "ops": [top-op, ...]}          (ticks = 1/16 s)
   op      = ["L", delay, script] callLater | ["X", ref] cancel | ["R", ref, secs] reset | ["D", ref, secs] delay
   top-op  = op | ["A", dt] advance the clock | ["I"] runUntilCurrent() | ["T"] timeout() | ["G"] getDelayedCalls()
+            | ["K"] white-box probe: _cancellations and the number of cancelled entries stored in
+              _pendingTimedCalls / _newTimedCalls (ties the model's lazy-deletion counter to the real one)
 A call created by ["L", d, k] runs script k (its ops, one by one, each in its own try/except) when it
 fires; `ref` names call number `ref mod (calls created so far)`.
 """
@@ -13,7 +15,7 @@ import itertools
 from twisted.internet import error
 from twisted.internet.base import ReactorBase
 
-HEADLINE = "TwistedProps.C08.history_timed_calls"
+HEADLINE = "TwistedProps.C08.history_trace_ok"
 RULE = ("histories of up to 200 top-level ops over up to ~130 calls: callLater/cancel/reset/delay at top level and "
         "from inside running calls (script table, self-rescheduling scripts), clock advances followed by runUntilCurrent, "
         "timeout() and getDelayedCalls() probes; modes: mixed, equal-time heavy (heap tie layout), cancellation bursts "
@@ -26,20 +28,32 @@ ASSUMES = [
     "times are dyadic (multiples of 1/16 s, |t| < 2^40): Python float arithmetic on them is exact",
     "fewer than 2500 heap entries (CPython's heapify uses another visiting order above that; layout only)",
     "ordering clause: a call scheduled during the running iteration and then moved before that iteration's start "
-    "time cannot satisfy both 'does not run in that iteration' and 'no pending call is scheduled earlier'; the "
-    "theorem states the ordering against every other pending call (finding key staged-call-moved-before-now)",
+    "time cannot satisfy both 'does not run in that iteration' and 'no pending call is scheduled earlier' (finding key "
+    "staged-call-moved-before-now, order_counterexample); history_trace_ok states the ordering against every other "
+    "pending call that existed before the iteration began or is not scheduled before the clock; nonneg_history_order "
+    "proves it against ALL other pending calls for every history whose reset()/delay() arguments are non-negative "
+    "(gentle_history_order: whenever no reset/delay moves a call before the clock)",
+    "_cancellations is not part of the statement: cancellations_counter_exact proves the exact value (cancelled entries "
+    "stored minus the cancelled calls still staged at the last compaction); it can be negative (counter_negative_witness, "
+    "reproduced on the real ReactorBase by the K probe) — this only delays the compaction heuristic",
 ]
 TRUSTED = ["harness trace recorder in harness/corr/C08.py (wraps callLater'd functions, maps DelayedCall objects to creation indices)"]
 MANIFEST = {
     "text": "Lean theorems (TwistedProps/C08.lean) over ALL histories of callLater/cancel/reset/delay (top level and from "
             "inside running calls), clock advances and iterations, for a model transcribing ReactorBase's staging list, "
             "heapq heap (siftdown/siftup/heapify), lazy cancellation + compaction, _moveCallLaterSooner and DelayedCall "
-            "reset/delay: heap invariant and store/heap bookkeeping preserved by every operation; a call is entered only "
-            "while pending, not before getTime(), with no earlier heap-resident pending call; after an iteration no "
-            "pre-existing pending call is due; calls created in an iteration do not run in it; getDelayedCalls = pending "
-            "set; timeout bounded by the earliest pending call. Model tied to base.py by differential traces.",
+            "reset/delay. history_trace_ok: the GLOBAL event trace of every history passes a reference timer run over the "
+            "trace alone (the Lean twin of the Python oracle) at every event; runs_exactly_once: no call id twice in the run "
+            "log; a call is entered only inside an iteration that began after it was created, with no successful cancel and "
+            "no run before, not before its current getTime(), with no earlier pending call (among those older than the "
+            "iteration or not moved before the clock); at every iteration end every older call whose time has come has run or "
+            "was cancelled (so: exactly once, in the first iteration at or after its time, iff not cancelled first). "
+            "nonneg_history_order: for non-negative reset/delay arguments the ordering holds against all pending calls. "
+            "getDelayedCalls = pending set; timeout bounded by the earliest pending call. cancellations_counter_exact: "
+            "_cancellations = cancelled entries stored - cancelled calls still staged at the last compaction (can be negative: "
+            "counter_negative_witness). Model tied to base.py by differential traces incl. a white-box probe of _cancellations.",
     "note": "trusts Lean kernel, the hand-written model (differentially tied incl. exact heap tie-order), CPython _heapq as transcribed",
-    "technique": "Lean 4 proof (heap invariants for heapq sift loops, system invariant by induction over histories) + differential tie + reference-timer oracle",
+    "technique": "Lean 4 proof (heap invariants for heapq sift loops, system invariant by induction over histories, simulation of a reference timer over the global trace) + differential tie + reference-timer oracle",
     "design_ref": "DESIGN.md §7.2 C08",
 }
 
@@ -144,6 +158,9 @@ def run_impl(case, limit=None):
         elif kind == "G":
             got = sorted((dc._verif_idx, _ticks(dc.getTime())) for dc in r.getDelayedCalls())
             trace.append("G=" + ".".join(f"{i}:{t}" for i, t in got))
+        elif kind == "K":
+            trace.append(f"K={r._cancellations},{sum(1 for dc in r._pendingTimedCalls if dc.cancelled)},"
+                         f"{sum(1 for dc in r._newTimedCalls if dc.cancelled)}")
         else:
             do_op(top)
     if big:
@@ -222,6 +239,14 @@ def _problems(case, out):
                     probs.append(("timeout", f"timeout() = {v} ticks outside [0, {LONGEST}]"))
                 if pend and v > max(0, min(pend) - now):
                     probs.append(("timeout", f"timeout() = {v} ticks exceeds time {min(pend) - now} to the earliest pending call"))
+        elif tok[0] == "K":
+            # not part of the property's text: the lazy-deletion counter only drives the compaction heuristic.
+            # Checked here is the invariant PROVED for the model (TwistedProps.C08.cancellations_counter_*):
+            # the counter never exceeds the number of cancelled entries stored.  (It can be smaller, even
+            # negative: compaction zeroes it while cancelled calls are still staged — see counter_negative_witness.)
+            canc, ch, cs = (int(x) for x in tok[2:].split(","))
+            if canc > ch + cs:
+                probs.append(("cancellations-counter", f"_cancellations = {canc} exceeds the {ch}+{cs} cancelled entries stored"))
         elif tok[0] == "G":
             got = [tuple(int(x) for x in p.split(":")) for p in tok[2:].split(".")] if tok[2:] else []
             exp = sorted((i, T[i]) for i in T if st[i] == "p")
@@ -284,6 +309,9 @@ def tag(case, out):
             f.add("nL" if nested else "tL")
         elif t.startswith("T="):
             f.add("T:" + ("None" if t == "T=None" else "0" if t == "T=0" else "max" if t == f"T={LONGEST}" else "+"))
+        elif t.startswith("K="):
+            canc, ch, cs = (int(x) for x in t[2:].split(","))
+            f.add("K:" + ("neg" if canc < 0 else "exact" if canc == ch + cs else "under"))
         elif t.startswith("!"):
             f.add(t)
     f.add("canc>50" if ncanc > 50 else "canc>10" if ncanc > 10 else "canc")
@@ -314,7 +342,15 @@ def corpus():
         # compaction: 60 in the heap, 55 cancelled, plus one created and cancelled inside the compacting iteration
         {"base": 0, "scripts": [[["L", 3, 1], ["X", 61]], []],
          "ops": [["L", 1, 0]] + [["L", 10 + (i * 7) % 13, 1] for i in range(60)] + [["I"]] + [["X", i] for i in range(1, 56)]
-                + [["A", 1], ["I"], ["G"], ["T"], ["A", 30], ["I"], ["G"], ["T"], ["I"]]},
+                + [["K"], ["A", 1], ["I"], ["K"], ["G"], ["T"], ["K"], ["A", 30], ["I"], ["K"], ["G"], ["T"], ["I"], ["K"]]},
+        # the same with three calls created and cancelled inside the compacting iteration (counter reaches -3),
+        # then 60 more cancellations: the deficit delays the next compaction
+        {"base": 0, "scripts": [[["L", 3, 1], ["X", 61], ["L", 3, 1], ["X", 62], ["L", 0, 1], ["L", 3, 1], ["X", 64]], []],
+         "ops": [["L", 1, 0]] + [["L", 10 + (i * 7) % 13, 1] for i in range(60)] + [["I"]] + [["X", i] for i in range(1, 56)]
+                + [["K"], ["A", 1], ["I"], ["K"], ["I"], ["K"]] + [["L", 40, 1] for i in range(60)] + [["T"], ["K"]]
+                + [["X", 65 + i] for i in range(58)] + [["K"], ["I"], ["K"], ["G"], ["A", 100], ["I"], ["K"], ["G"]]},
+        # counter probes around staged cancellation without compaction (counter exact)
+        {"base": 0, "scripts": [], "ops": [["K"], ["L", 5, 0], ["X", 0], ["K"], ["T"], ["K"], ["L", 5, 0], ["I"], ["X", 1], ["K"], ["A", 5], ["I"], ["K"]]},
     ]
 
 
@@ -343,7 +379,9 @@ def _rand_op(rng, mode, nested):
 
 
 def _history(rng, tier):
-    mode = rng.choice(["mixed", "mixed", "ties", "past", "nonneg", "far", "burst"])
+    mode = rng.choice(["mixed", "mixed", "ties", "past", "nonneg", "far", "burst", "nestburst"])
+    if mode == "nestburst":
+        return _nestburst(rng, tier)
     nscripts = rng.randrange(0, 6)
     scripts = [[_rand_op(rng, mode, True) for _ in range(rng.choice([0, 1, 1, 2, 3, 5]))] for _ in range(nscripts)]
     ops = []
@@ -370,14 +408,48 @@ def _history(rng, tier):
             ops.append(["T"])
         elif r < 0.50:
             ops.append(["G"])
+        elif r < 0.54:
+            ops.append(["K"])
         else:
             ops.append(_rand_op(rng, mode, False))
-    ops += [["G"], ["T"], ["A", 200], ["I"], ["G"], ["T"]]
+    ops += [["K"], ["G"], ["T"], ["A", 200], ["I"], ["G"], ["T"], ["K"]]
     return {"base": rng.choice([0, 0, 7, 1600, -48]), "scripts": scripts, "ops": ops}
+
+
+def _nestburst(rng, tier):
+    """calls created AND cancelled inside the iteration that compacts the heap (the input class on which
+    `_cancellations` under-counts): call 0 (due first) runs a script that creates m calls, cancelling most of them by
+    their (statically known) index, while > 50 of the k heap-resident calls are cancelled; followed by more
+    cancellation bursts so that the next compaction threshold is crossed with the deficit in place"""
+    k = rng.randrange(52, 110)
+    m = rng.randrange(1, 8)
+    body, nxt = [], k + 1
+    for _ in range(m):
+        body.append(["L", rng.choice([0, 0, 3, 16, 40]), rng.choice([1, 1, 2])])
+        if rng.random() < 0.8:
+            body.append(["X", nxt])
+        nxt += 1
+    if rng.random() < 0.3:
+        body.append(["X", rng.randrange(1, k + 1)])
+    scripts = [body, [], [["X", rng.randrange(0, 64)]] if rng.random() < 0.5 else []]
+    ops = [["L", 1, 0]] + [["L", rng.choice([5, 16, 16, 30, 60]), 1] for _ in range(k)]
+    if rng.random() < 0.8:
+        ops.append(["I"])
+    victims = rng.sample(range(1, k + 1), rng.randrange(51, k + 1))
+    ops += [["X", v] for v in victims] + [["K"], ["A", 1], ["I"], ["K"]]
+    ops += rng.choice([[["I"], ["K"]], [["T"], ["K"]], [["G"], ["K"]]])
+    k2 = rng.randrange(0, 90)
+    ops += [["L", rng.choice([16, 30, 60]), 1] for _ in range(k2)]
+    if k2 and rng.random() < 0.7:
+        ops.append(rng.choice([["I"], ["T"]]))
+    ops += [["X", nxt + v] for v in rng.sample(range(k2), rng.randrange(0, k2 + 1))] if k2 else []
+    ops += [["K"], ["I"], ["K"], ["G"], ["A", rng.choice([4, 15, 100])], ["I"], ["K"], ["G"], ["T"], ["A", 200], ["I"], ["K"], ["G"]]
+    return {"base": rng.choice([0, 0, 7, -48]), "scripts": scripts, "ops": ops}
 
 
 _ALPHA = [["L", 0, 0], ["L", 16, 1], ["L", 32, 2], ["X", 0], ["X", 1], ["R", 0, 0], ["R", 1, 48], ["D", 0, -16], ["D", 1, 16],
           ["A", 16], ["I"], ["T"], ["G"]]
+# (the counter probe ["K"] is not in the exhaustive alphabet: it does not change the state; every exhaustive history ends with one)
 _EXH_SCRIPTS = [[["L", 0, 1], ["D", 1, -16]], [["R", 0, 0], ["X", 2]], [["D", 0, 16], ["L", 16, 0]]]
 
 
@@ -386,7 +458,7 @@ def _exhaustive(depth):
         for combo in itertools.product(_ALPHA, repeat=n):
             if not any(o[0] == "L" for o in combo):
                 continue
-            yield {"base": 0, "scripts": _EXH_SCRIPTS, "ops": list(combo) + [["A", 16], ["I"], ["G"], ["T"], ["A", 32], ["I"], ["G"]]}
+            yield {"base": 0, "scripts": _EXH_SCRIPTS, "ops": list(combo) + [["A", 16], ["I"], ["G"], ["T"], ["A", 32], ["I"], ["G"], ["K"]]}
 
 
 def _bounded(rng, tier, n):
